@@ -51,6 +51,13 @@ Theorem C20_unresolvable_is_load_error : forall world t g,
 Proof. exact unresolvable_is_load_error. Qed.
 Print Assumptions C20_unresolvable_is_load_error.
 
+(* a type string with several qualified names (`map[foo.K]io.Reader`, a name under any type constructor) is unresolvable
+   exactly when one of its names is, wherever that name sits (the translated parser agrees: C20Parse.v) *)
+Theorem C20_type_string_unresolvable_iff_a_name_is : forall world t qs,
+  resolve world t (RTypeExpr qs) = None <-> exists pkg name, In (pkg, name) qs /\ resolve world t (RTypePat pkg name) = None.
+Proof. exact type_expr_unresolvable_iff. Qed.
+Print Assumptions C20_type_string_unresolvable_iff_a_name_is.
+
 (* ---- the table itself, under arbitrary scripted histories (EnterScope / Load / LeaveScope in any nesting, any name bound any
    number of times per scope); every run executes `exec` on the harness' scripts against the real typematch.ImportsTab *)
 Theorem C20_script_balanced : forall ops t, wf_script 0 ops = true -> exec t ops = Ok t.
@@ -102,6 +109,13 @@ Example c20_unresolvable_fails :
   group_result w [std] (Group false [("io", "example.com/io")] [RIface (IQual "io" "Writer")]) = GFailed /\
   group_result w [std] (Group false [] [RTypePat "foo" "T"]) = GFailed /\
   group_result w [std] (Group false [] [RFuncRef "io" "Reader" "ReadFake"]) = GFailed.
+Proof. vm_compute. repeat split; reflexivity. Qed.
+Example c20_type_string_with_two_names :
+  group_result w [std] (Group false [("foo", "example.com/a/foo")] [RTypeExpr [("io", "Reader"); ("foo", "T")]]) =
+    GLoaded [ResTypes [("io", "Reader"); ("example.com/a/foo", "T")]] /\
+  group_result w [std] (Group false [] [RTypeExpr [("io", "Reader"); ("foo", "T")]]) = GFailed /\
+  load_file w [std] [Group false [("foo", "example.com/a/foo")] [RTypeExpr [("foo", "T"); ("io", "Reader")]]; Group false [] [RTypeExpr [("io", "Reader"); ("foo", "T")]]] =
+    Ok ([std], [GLoaded [ResTypes [("example.com/a/foo", "T"); ("io", "Reader")]]; GFailed]).
 Proof. vm_compute. repeat split; reflexivity. Qed.
 (* recorded finding type-pattern-unknown-name-accepted: a type pattern naming something the package does not declare loads *)
 Theorem C20_unknown_type_name_accepted_refuted :
